@@ -35,6 +35,7 @@ type c20Case struct {
 	PayloadN  int        `json:"payload_len"`
 	Seed      byte       `json:"seed"`
 	Malformed string     `json:"malformed"` // "" | method | chunked | too-long | bad-der | trailing | truncated-der
+	PrefixLie int64      `json:"length_prefix_minus_payload_length,omitempty"` // the four-byte prefix inside kerb-message announces that much more (or less) than follows it
 	NoPrefix  bool       `json:"no_length_prefix"` // kerb-message shorter than 4 bytes / without a meaningful prefix
 }
 
@@ -67,6 +68,9 @@ func genC20(t *rapid.T) c20Case {
 		c.PayloadN = rapid.IntRange(0, 3000).Draw(t, "payloadAny")
 	}
 	c.Seed = rapid.Byte().Draw(t, "seed")
+	if c.PayloadN >= 4 && rapid.IntRange(0, 7).Draw(t, "prefixLie") == 0 {
+		c.PrefixLie = rapid.SampledFrom([]int64{1, 100, 70000, -1, -4, 0xFFFFFFFC - int64(c.PayloadN)}).Draw(t, "lie")
+	}
 	if rapid.IntRange(0, 3).Draw(t, "malformed") == 0 {
 		c.Malformed = rapid.SampledFrom([]string{"method", "chunked", "too-long", "bad-der", "trailing", "truncated-der"}).Draw(t, "malKind")
 	}
@@ -120,7 +124,7 @@ func runC20(c c20Case, dir string) *Violation {
 		pn = 2000 // refused before the body is read: a client still writing a large body would only see a reset
 	}
 	payload := streamBytes(c.Seed, 0, pn)
-	msg := append(binary.BigEndian.AppendUint32(nil, uint32(len(payload))), payload...)
+	msg := append(binary.BigEndian.AppendUint32(nil, uint32(int64(len(payload))+c.PrefixLie)), payload...)
 	if pn < 4 && c.Seed%2 == 0 {
 		msg = payload // a kerb-message shorter than a length prefix
 	}
@@ -231,6 +235,9 @@ func runC20(c c20Case, dir string) *Violation {
 			replying = true
 		}
 		_ = i
+	}
+	if c.PrefixLie != 0 {
+		return nil // the prefix does not describe what follows it: not a well-formed Kerberos message, only "answers, no panic" is required
 	}
 	if len(msg) < 4 {
 		return nil // a kerb-message without room for its length prefix is not a well-formed Kerberos message: only "answers, no panic" is required
